@@ -50,7 +50,8 @@ func NewPublisher(doc *gedcom.Document, options *PublishShowOptions) *Publisher 
 		publisher.Places()
 	}
 
-	publisher.individuals = GetIndividuals(doc, publisher.placesMap)
+	publisher.individuals = getIndividuals(doc, publisher.placesMap,
+		options.LivingVisibility)
 
 	return publisher
 }
